@@ -569,7 +569,23 @@ def tpl_chain(ch):
                 tags={'chain'})
 
 
+def tpl_deep(ch):
+    """A forwarding function whose body is nested deeper than the AST walker gets by default
+    (hundreds of chained operators), next to ordinary ones: whatever retrieval does about depth
+    (limits, fallbacks) is process-wide by nature."""
+    inner = draw_inner(ch)
+    depth = [300, 600, 900][ch.draw(3, 'nesting-depth')]
+    src = (HEADER + 'def inner({inner}):\n    return 0\n\n'
+           'def deep(a, *args, **kwargs):\n    return inner(*args, **kwargs){plus}\n\n'
+           'def shallow(b, *args, **kwargs):\n    return inner(*args, **kwargs)\n\n'
+           'def shallow2(c, *args, **kwargs):\n    return shallow(c, *args, **kwargs)\n'
+           ).format(inner=inner, plus=' + 1' * depth)
+    return dict(template='deep', params=dict(inner=inner, depth=depth), source=src,
+                subjects={'deep': 'deep', 'shallow': 'shallow', 'shallow2': 'shallow2'}, tags={'deep'})
+
+
 TEMPLATES = {
+    'deep': tpl_deep,
     'chain': tpl_chain,
     'instdep': tpl_instdep,
     'observed': tpl_observed,
